@@ -98,11 +98,12 @@ def validate_real(rep: Report, traces: list[dict], selfcheck: bool = True):
     extra = []
     if selfcheck:
         # corrupted traces must be rejected: (a) two threads' events overlapped, (b) a foreign reply
-        src = next((t for t in clean if len(t["ev"]) > 8 and t["q"]), None)
+        src_i = next((i for i, t in enumerate(clean) if len(t["ev"]) > 8 and t["q"] and not t["stalled"]), None)
+        src = clean[src_i] if src_i is not None else None
         if src is not None:
             a = copy.deepcopy(src)
-            i = next(k for k in range(len(a["ev"]) - 1) if a["ev"][k]["k"] == "exit" and a["ev"][k + 1]["k"] == "enter"
-                     and (a["ev"][k]["p"], a["ev"][k]["t"]) != (a["ev"][k + 1]["p"], a["ev"][k + 1]["t"]))
+            i = next((k for k in range(len(a["ev"]) - 1) if a["ev"][k]["k"] == "exit" and a["ev"][k + 1]["k"] == "enter"
+                     and (a["ev"][k]["p"], a["ev"][k]["t"]) != (a["ev"][k + 1]["p"], a["ev"][k + 1]["t"])), 0)
             a["ev"][i], a["ev"][i + 1] = a["ev"][i + 1], a["ev"][i]
             a["ev"][i]["seq"], a["ev"][i + 1]["seq"] = a["ev"][i + 1]["seq"], a["ev"][i]["seq"]
             b = copy.deepcopy(src)
@@ -114,7 +115,7 @@ def validate_real(rep: Report, traces: list[dict], selfcheck: bool = True):
     )
     rep.states += st
     rep.transitions += tr
-    if extra:
+    if extra and verdicts[src_i]["verdict"] == "ok":  # meaningful only if the source trace is accepted
         va, vb = verdicts[len(clean)], verdicts[len(clean) + 1]
         if not va["verdict"].startswith("MutualExclusion") or not vb["verdict"].startswith("OwnReply"):
             raise tlc.MachineryError(f"Trace_TtyLock accepted a corrupted trace: {va} / {vb}")
